@@ -425,4 +425,98 @@ OK("c07-benign-commit-rewrite", "C07", "assertion.py",
    "            if key in ava:\n                self[key] = ava[key]\n            else:\n                del self[key]",
    "            if not key in ava:\n                del self[key]\n            else:\n                self[key] = ava[key]")
 
+# ------------------------------------------------------------------ C09
+V("c09-url-startswith", "C09", "entity.py",
+  "                            if srv[\"location\"] == _url:\n                                return binding, _url",
+  "                            if _url.startswith(srv[\"location\"]):\n                                return binding, _url",
+  rule="R1")
+V("c09-return-url-when-no-match", "C09", "entity.py",
+  "                            if srv[\"location\"] == _url:\n                                return binding, _url\n",
+  "                            if srv[\"location\"] == _url:\n                                return binding, _url\n                        return binding, _url\n",
+  rule="R1")
+V("c09-url-without-metadata", "C09", "entity.py",
+  "        for binding in bindings:\n            try:\n                srvs = sfunc(entity_id, binding, descr_type)",
+  "        if _url:\n            return bindings[0], _url\n        for binding in bindings:\n            try:\n                srvs = sfunc(entity_id, binding, descr_type)",
+  rule="R1")
+V("c09-index-neq", "C09", "entity.py",
+  "if srv[\"index\"] == _index:", "if srv[\"index\"] != _index:", rule="R1")
+V("c09-catch-unknown-entity", "C09", "entity.py",
+  "            except UnsupportedBinding:\n                pass\n\n        logger.error(\"Failed to find consumer URL",
+  "            except (UnsupportedBinding, Exception):\n                pass\n\n        logger.error(\"Failed to find consumer URL",
+  rule="R2")
+V("c09-raise-removed", "C09", "entity.py",
+  "        raise SAMLError(\"Unknown entity or unsupported bindings\")\n\n    def message_args",
+  "        return bindings[0], _url\n\n    def message_args", rule="R1")
+V("c09-other-entity-metadata", "C09", "entity.py",
+  "                srvs = sfunc(entity_id, binding, descr_type)",
+  "                srvs = sfunc(self.config.entityid, binding, descr_type)", rule="R1")
+V("c09-response-args-destination-from-request", "C09", "entity.py",
+  "            info[\"binding\"] = binding\n            info[\"destination\"] = destination\n\n        return info",
+  "            info[\"binding\"] = binding\n            info[\"destination\"] = getattr(message, 'assertion_consumer_service_url', None) or destination\n\n        return info",
+  rule="R3")
+V("c09-store-unknown-as-unsupported", "C09", "mdstore.py",
+  "            srvs = _md.service(entity_id, typ, service, binding)\n            if srvs:\n                return srvs\n            elif srvs is None:\n                pass\n            else:\n                known_entity = True",
+  "            srvs = _md.service(entity_id, typ, service, binding)\n            if srvs:\n                return srvs\n            else:\n                known_entity = True", rule="R4")
+V("c09-store-binding-filter-dropped", "C09", "mdstore.py",
+  "                if srv[\"binding\"] == binding:\n                    res.append(srv)\n        else:\n            res = {}",
+  "                res.append(srv)\n        else:\n            res = {}", rule="R4")
+OK("c09-benign-eq-swapped", "C09", "entity.py",
+   "if srv[\"location\"] == _url:", "if _url == srv[\"location\"]:")
+
+# ------------------------------------------------------------------ C10
+V("c10-verify-skipped", "C10", "entity.py",
+  "        if _request:\n            _request = _request.verify()\n            _log_debug(\"Verified request\")",
+  "        if _request and binding != BINDING_SOAP:\n            _request = _request.verify()\n            _log_debug(\"Verified request\")",
+  rule="R1")
+V("c10-must-hardcoded-false", "C10", "entity.py",
+  "        must = self.config.getattr(\"want_authn_requests_signed\", \"idp\")",
+  "        must = False", rule="R2")
+V("c10-must-wrong-option", "C10", "entity.py",
+  "        must = self.config.getattr(\"want_authn_requests_signed\", \"idp\")",
+  "        must = self.config.getattr(\"sign_response\", \"idp\")", rule="R2")
+V("c10-empty-message-ok", "C10", "request.py",
+  "        if not self.message:\n            logger.error(\"Response was not correctly signed\")\n            logger.info(\"Response: %s\", xmldata)\n            raise IncorrectlySigned()",
+  "        if not self.message:\n            logger.error(\"Response was not correctly signed\")\n            logger.info(\"Response: %s\", xmldata)",
+  rule="R3")
+V("c10-handler-parses-anyway", "C10", "request.py",
+  "        except Exception as excp:\n            logger.info(\"EXCEPTION: %s\", excp)\n",
+  "        except Exception as excp:\n            logger.info(\"EXCEPTION: %s\", excp)\n            from saml2_tophat import samlp\n            self.message = samlp.authn_request_from_string(xmldata)\n",
+  rule="R3")
+V("c10-validation-dropped", "C10", "request.py",
+  "        try:\n            valid_instance(self.message)\n        except NotValid as exc:\n            logger.error(\"Not valid request: %s\", exc.args[0])\n            raise\n",
+  "", rule="R3")
+V("c10-notvalid-swallowed", "C10", "request.py",
+  "            logger.error(\"Not valid request: %s\", exc.args[0])\n            raise\n",
+  "            logger.error(\"Not valid request: %s\", exc.args[0])\n", rule="R3")
+V("c10-wrong-parser", "C10", "sigver.py",
+  "return self.correctly_signed_message(decoded_xml, 'logout_request', must, origdoc, only_valid_cert)",
+  "return self.correctly_signed_message(decoded_xml, 'logout_response', must, origdoc, only_valid_cert)",
+  rule="R4")
+V("c10-class-keeps-dummy", "C10", "request.py",
+  "        self.signature_check = self.sec.correctly_signed_attribute_query\n", "", rule="R4")
+V("c10-must-not-forwarded", "C10", "sigver.py",
+  "return self.correctly_signed_message(decoded_xml, 'attribute_query', must, origdoc, only_valid_cert)",
+  "return self.correctly_signed_message(decoded_xml, 'attribute_query', False, origdoc, only_valid_cert)",
+  rule="R4")
+V("c10-unsigned-must-returns", "C10", "sigver.py",
+  "            if must:\n                err_msg = 'Required signature missing on {type}'",
+  "            if must and origdoc:\n                err_msg = 'Required signature missing on {type}'",
+  rule="R5")
+V("c10-destination-check-removed", "C10", "request.py",
+  "            raise OtherError(\"Not destined for me!\")", "            pass", rule="R6")
+V("c10-destination-in-flipped", "C10", "request.py",
+  "                self.message.destination not in self.receiver_addrs:",
+  "                self.message.destination in self.receiver_addrs:", rule="R6")
+V("c10-issue-instant-dropped", "C10", "request.py",
+  "        assert self.issue_instant_ok()\n        return self", "        return self", rule="R6")
+V("c10-receiver-addrs-all", "C10", "entity.py",
+  "        receiver_addresses = self.config.endpoint(service, binding,\n                                                  self.entity_type)",
+  "        receiver_addresses = self.config.endpoint(service, None,\n                                                  self.entity_type)",
+  rule="R8")
+V("c10-verify-catches-all", "C10", "request.py",
+  "        except AssertionError:\n            return None\n\n    def subject_id",
+  "        except Exception:\n            return self\n\n    def subject_id", rule="R9")
+OK("c10-benign-must-rename", "C10", "entity.py",
+   "_log_debug(\"Loaded request\")", "_log_debug(\"Loaded the request\")")
+
 VARIANTS[:] = [v for v in VARIANTS if v]
